@@ -85,6 +85,16 @@ CHECKS.update({
                      "caller was cancelled. Exploration level."),
 })
 
+CHECKS["C11"] = dict(engine="sync-conditions", ref="4 (Engine SYNC, C11)",
+    technique="deterministic simulation: seeded virtual-time asyncio loop + seeded cancel/notify fault injection, "
+              "checked online against a notification-token automaton (world set) and Event release rules",
+    text="Seeded search over Condition/Event programs (1-7 waiters, 1-3 notifiers, notify(n)/notify_all, waits in "
+         "cancellable scopes, cancels before / in the same cycle as / after the selecting notification, misuse by "
+         "non-holders and earlier holders). A normal return from wait() must be explained by a token in some automaton "
+         "state, statistics().tasks_waiting must match (lost / duplicated notifications, phantom waiters), wait() must "
+         "come back holding the lock even when cancelled; Event.wait returns only after set(), within 3 cycles, and "
+         "the event stays set. Exploration level.")
+
 NOT_YET = "check not built yet in this snapshot of /verif (work in progress; see DESIGN.md section 4 for the plan)"
 
 
@@ -109,7 +119,7 @@ def main():
     engines = {}
     for pid, c in CHECKS.items():
         engines.setdefault(c["engine"], []).append(pid)
-    paths = {"sync-permits": "engines/permits.py", "sc": "engines/sc.py"}
+    paths = {"sync-permits": "engines/permits.py", "sc": "engines/sc.py", "sync-conditions": "engines/conds.py"}
     try:
         hooks = [l.split()[0] for l in subprocess.run(
             ["git", "-C", "/repo", "log", "--format=%h %s", "--grep=^hook:"], capture_output=True, text=True
